@@ -115,6 +115,20 @@ fn burst(r: &mut Rng, pool: &[&'static str], m: usize) -> Value {
             v.push(x.clone()); v.push(if fault == "range" { bad } else { call(r, pool, fault) }); v.push(x);
             continue;
         }
+        // beyond the zone's transition table (it ends in 2037; the footer rule takes over): an instant of the winter after the last listed
+        // transition, then one of a later summer, in the same zone - as two consecutive calls and inside one call (until in days)
+        if fault == "" && r.chance(1, 10) {
+            let tz = *r.pick(&["America/New_York", "Europe/Berlin", "Europe/London", "America/Los_Angeles", "Australia/Sydney", "Europe/Paris"][..]);
+            let w = r.range(2_141_100_000, 2_150_900_000) as i128 * 1_000_000_000 + r.range(1, 999_999_999) as i128;
+            let s2 = w + (r.range(150, 230) + 365 * r.range(0, 2)) as i128 * 86_400_000_000_000;
+            if r.chance(1, 2) {
+                v.push(json!({"op": "CZ.get", "args": {"ns": big(w), "tz": tz, "f": "offsetSeconds"}}));
+                v.push(json!({"op": "CZ.get", "args": {"ns": big(s2), "tz": tz, "f": *r.pick(&["offsetSeconds", "hour"])}}));
+            } else {
+                v.push(json!({"op": "CZ.until", "args": {"ns": big(w), "tz": tz, "other": {"ns": big(s2), "tz": tz}, "st": {"largest": "day"}}}));
+            }
+            continue;
+        }
         v.push(call(r, pool, fault));
     }
     Value::Array(v)
